@@ -1,5 +1,111 @@
-"""C06 (layer A part shared with C18/C10/C04/C07/C12/C20): the control-plane models."""
+"""C06: the outcome is independent of thread interleaving, worker count and driver."""
+import json
+from .. import build, ctlplane, evplane, nsplane, runner, tlc
+from ..nsplane import E, SC, tree
+from ..common import rng, ToolError
+
 def layer_a(ctx, quick):
-    pass
+    return ctlplane.layer_a(ctx, quick)
+
+def filedata(name, size):
+    return bytes((i * 11 + len(name) * 3) % 251 + 1 for i in range(size))
+
+def scenario(name, shape, block, extra=None):
+    """shape: name -> int size | ('link', text) | dict"""
+    fs = [E("s", "dir", m=0o750, t="1600000000123456789")]
+    def rec(base, sh):
+        for n, v in sh.items():
+            p = base + "/" + n
+            if isinstance(v, dict):
+                fs.append(E(p, "dir", m=0o755)); rec(p, v)
+            elif isinstance(v, tuple):
+                fs.append(E(p, "link", v[1]))
+            else:
+                e = E(p, "file", "X-%s-%d" % (p, v), m=[0o644, 0o600, 0o755, 0o444][len(n) % 4], t=str(1500000000000000000 + v * 1000 + len(p)))
+                e["meta"]["data"] = filedata(p, v)
+                fs.append(e)
+    rec("s", shape)
+    return SC(name, fs, ["s"], "d", extra=["--block-size", str(block)] + (extra or []), cls="schedule")
+
+def scenarios(quick):
+    small = {("f%02d" % i): (i * 37) % 300 for i in range(25)}
+    out = [
+        scenario("mixed", dict(small, big1=5000, big2=7777, sub={"x": 3000, "deep": {"y": 1, "e": 0}, "l": ("link", "../big1")}, l2=("link", "f01")), 1000),
+        scenario("multiblock", {"a": 8000, "b": 8000, "c": 4096, "d": {"e": 8191}}, 1024),
+        scenario("nested", {"d1": {"d2": {"d3": {"f": 100, "g": 2500}}, "h": 10}, "top": 999}, 500),
+        scenario("fsync-mixed", dict(small, big=6000), 2000, extra=["--fsync"]),
+    ]
+    if not quick:
+        out.append(scenario("wide", {("w%03d" % i): (i * 131) % 5000 for i in range(300)}, 1024))
+    return out
+
+def view(after, with_meta=True):
+    """what must be equal across runs: paths, kinds, bytes, link targets, permissions, timestamps"""
+    out = []
+    for e in after:
+        if e["p"][0] != "d":
+            continue
+        md = e["md"].split("|")
+        mode, mtime = md[0], md[1]
+        if e["k"] == "dir":
+            mtime = ""            # directory mtimes are set by the creation of children (not copied by xcp)
+        if e["k"] == "link":
+            mode, mtime = "", ""
+        out.append(["/".join(e["p"]), e["k"], e["c"], mode if with_meta else "", mtime if with_meta else ""])
+    return out
+
 def run(ctx):
-    raise NotImplementedError
+    binary = build.xcp()
+    quick = ctx.tier == "quick"
+    layer_a(ctx, quick)
+    rnd = rng("C06")
+    scs = scenarios(quick)
+    jobs = []
+    for sc in scs:
+        for drv in ("parfile", "parblock"):
+            for w in ((1, 2, 4, 16, 64) if quick else (1, 2, 3, 4, 8, 16, 32, 64)):
+                for rep in range(2 if quick else 5):
+                    plan = None if rep == 0 else ["delay=%d:%d" % (rnd.randint(1, 10 ** 6), rnd.choice([100, 800, 3000]))]
+                    jobs.append((sc, drv, w, plan, rep))
+    def one(j):
+        sc, drv, w, plan, rep = j
+        rid = "c06-%s-%s-w%d-r%d" % (sc["id"], drv, w, rep)
+        return evplane.traced_tree_run(binary, sc, drv, rid, {"fsync": "--fsync" in sc["extra"], "reflink": "auto"}, plan=plan, workers=w)
+    res = runner.pmap(one, jobs)
+    verdicts, st = evplane.judge([r[1] for r in res], len(res))
+    ctx.states += st["distinct"]; ctx.transitions += st["generated"]
+    ctx.tlc_jobs.append({"job": "Trace_Ev verdicts", "runs": len(res), "events": st["events"], "wall_s": round(st["wall"], 2)})
+    # determinism across runs: TLC compares the outcome records of all runs of one scenario (Trace_Det)
+    groups = {}
+    for (sc, drv, w, plan, rep), (o, recs, n), v in zip(jobs, res, verdicts):
+        ctx.traces += 1
+        multi = any(len(e.get("meta", {}).get("data", b"")) > int(sc["extra"][1]) for e in sc["fs0"])
+        ctx.case((sc["id"], drv, w, rep), multi and w >= 2)
+        groups.setdefault(sc["id"], []).append({"run": "%s/w%d/r%d" % (drv, w, rep), "exit": o["exit"], "view": view(o["after"])})
+        for c in v["viol"]:
+            if c in ("C06",):
+                ctx.violation("C06: %s (%s, workers=%d, plan=%s): metadata applied before the last write (or a write after metadata)" % (sc["id"], drv, w, plan),
+                              {"kind": "c06-order", "scenario": sc["id"], "driver": drv, "workers": w, "plan": plan, "verdict": v},
+                              sig={"scenario": sc["id"], "driver": drv, "kind": "order"})
+            else:
+                ctx.other.append({"clause": c, "id": sc["id"], "driver": drv})
+    drecs = [{"id": k, "runs": v} for k, v in groups.items()]
+    m = tlc.monitor("Trace_Det", "Trace_Det.cfg", drecs)
+    ctx.states += m.distinct; ctx.transitions += m.generated
+    dv = [v for t, v in m.printed if t == "VERDICT"]
+    if len(dv) != len(drecs):
+        raise ToolError("Trace_Det: %d verdicts for %d groups" % (len(dv), len(drecs)))
+    for g, v in zip(drecs, dv):
+        if not v["ok"]:
+            ctx.violation("C06: scenario %s: runs disagree (%s): %s" % (g["id"], v["what"], v["witness"]),
+                          {"kind": "c06-det", "scenario": g["id"], "witness": v["witness"], "what": v["what"]}, sig={"scenario": g["id"], "kind": "det"})
+    ctx.sample({"scenario": scs[0]["id"], "files": {"/".join(e["p"]): (e["k"], len(e.get("meta", {}).get("data", b""))) for e in scs[0]["fs0"]}})
+    ctx.sample({"group_verdict": dv[0], "runs_compared": len(drecs[0]["runs"])})
+    ctx.rule = ("trees mixing many small files, 3-8-block files, nested directories and links; each scenario run with both drivers, workers "
+                "{1,2,4,16,64}, repeated with seeded delays at the libfs hook points; TLC (Trace_Det) requires all runs of a scenario to have the same "
+                "exit status and the same destination (paths, kinds, bytes, link text, permissions, mtimes); TLC (Trace_Ev) checks on every trace "
+                "that no metadata call on an object is entered before its last write returned. non-trivial = multi-block file and >= 2 workers; "
+                "distinct by (scenario, driver, workers, repetition)")
+
+def replay(ctx, path):
+    print(open(path).read()[:3000])
